@@ -611,6 +611,31 @@ theorem C07_panic_inside_commit (c : Case) (k : Nat) (hpre : c.pre = .commitAbor
   rw [serve_eq, serve_eq, hpre]
   rfl
 
+/-- **C07_flush_unsupported** — the failing code flushed an underlying writer that has neither
+    `Flush` nor `FlushError` (echo under `http.TimeoutHandler`, a plain wrapper): `Response.Flush`
+    has committed with 200 and then panicked.  Whatever the code was going to do next,
+    * under a Recover that does not skip the request and keeps the error the client gets exactly
+      that one committed, empty 200 response — the error handler adds nothing, in particular the
+      text of the flush panic does not reach the client, Debug or not;
+    * and when no Recover instance catches (none, or all skipping) the panic leaves `ServeHTTP`. -/
+theorem C07_flush_unsupported (c : Case) (t : Atom) (hpre : c.pre = .flushUnsupported t) :
+    (∀ cfg, firstCatcher c.layers.reverse = some cfg → keepsError cfg.logFn = true →
+      serve (flushPanics c) = .response { calls := [200], docs := [], committed := true }) ∧
+    (firstCatcher c.layers.reverse = none → serve (flushPanics c) = .crashed) := by
+  have hfp : flushPanics c = { c with raise := .panicked (.error (.plain t)) } := by
+    simp [flushPanics, hpre]
+  constructor
+  · intro cfg hcatch hk
+    obtain ⟨e, hre, hs, _⟩ := C07_recovered (flushPanics c) (.error (.plain t)) cfg
+      (by rw [hfp]; exact hcatch) hk (by simp) (by rw [hfp])
+    simp only [recoverErr, Option.some.injEq] at hre
+    subst hre
+    rw [hs, C07_returned_ignores_middleware _ (.plain t) rfl]
+    simp [hfp, hpre, applyPre, handle]
+  · intro hnone
+    rw [serve_eq, hfp]
+    simp [finalErr, recoverErr, hnone]
+
 /-- **C07_requests_independent** — in a sequence of requests through one Echo every request
     gets the response it would get alone, whatever failed before it (errors, recovered panics,
     crashes).  In the model this holds by construction (`serveAll` is a `map`: the model has no
@@ -707,6 +732,12 @@ example : handOvers ⟨false, false, [.callsError true, .callsError true], .noth
 example : serve ⟨false, false, chainR, .commitAborted 0, .panicked (.str 3)⟩
     = .response ⟨[500], [.message (.statusText 500) none], true⟩ := by decide
 /-- the hypotheses of `C07_recovered` / `C07_panic_value_generic` are met -/
+example : serve (flushPanics ⟨true, false, chainR, .flushUnsupported 9019, .returned (.http 418 (.str 1))⟩)
+    = .response { calls := [200], docs := [], committed := true } ∧
+  serve (flushPanics ⟨false, false, [], .flushUnsupported 9019, .returned (.http 418 (.str 1))⟩) = .crashed ∧
+  serve (flushPanics ⟨false, false, [.recover ⟨false, false, .replace (.http 503 (.str 6))⟩], .flushUnsupported 9019,
+    .panicked (.str 2)⟩) = .response { calls := [200], docs := [], committed := true } := by decide
+
 example : firstCatcher (chainA.reverse) = some ⟨false, true, .unset⟩ ∧
     keepsError (LogFn.unset) = true := by decide
 /-- `context.Canceled` (a plain error with a reserved atom) is not special -/
